@@ -223,6 +223,15 @@ def run(ctx):
     tmo = 4 if ctx.quick else 20
 
     def solve(job):
+        try:
+            return solve_(job)
+        except Exception:
+            try:
+                return solve_(job)
+            except Exception:
+                return [], None
+
+    def solve_(job):
         rc, out, err = vlib.run_opensmt(job["pre"] + job["body"], timeout=tmo)
         answers = [w for w in out.split() if w in ("sat", "unsat", "unknown")]
         if "unsat" not in answers:
@@ -230,8 +239,11 @@ def run(ctx):
         text = job["pre"] + insert_get_proofs(job["body"], answers)
         rc2, out2, err2 = vlib.run_opensmt(text, timeout=tmo)
         return answers, (text, rc2, out2)
+    import time as _t
+    t0 = _t.time()
     with concurrent.futures.ThreadPoolExecutor(max_workers=6) as pool:
         results = list(pool.map(solve, jobs))
+    ctx.extra["t_solver_s"] = round(_t.time() - t0, 1)
 
     # collect the printed proofs
     proofs = []        # dict(job, text, k (index of check-sat), raw, state)
@@ -280,11 +292,6 @@ def run(ctx):
             P["pr"] = None
             P["syntax"] = str(e)
             continue
-        P["elided"] = sattrace.has_elision(pr)
-        if P["elided"]:
-            # continue past the loss of constant literals: read the proof without the steps over true/false
-            P["pr_printed"] = pr
-            pr = sattrace.drop_constant_steps(pr)
         P["pr"] = pr
         last = pr["steps"][-1][1] if pr["steps"] else 0
         P["last"] = last
@@ -299,6 +306,38 @@ def run(ctx):
         return
     for (pi, which), ans in zip(owner, outs):
         proofs[pi][which] = ans
+    # literals over true/false not printed?  (an elided leaf, or a chain step on the pivot true/false that the checker
+    # rejects because the printed premises do not contain it): continue past it by reading the proof without those steps
+    lines, owner = [], []
+    for pi, P in enumerate(proofs):
+        pr = P.get("pr")
+        if pr is None:
+            continue
+        P["elided"] = False
+        names = {st[1]: st for st in pr["steps"]}
+        for which in ("printed", "repaired"):
+            w = (P.get(which) or "").split()
+            if len(w) == 4 and w[1] == "BadPivot":
+                st = names.get(int(w[2]))
+                if st and int(w[3]) < len(st[4]) and st[4][int(w[3])][1] in sattrace.CONSTS:
+                    P["elided"] = True
+        if any(st[0] == "L" and st[3] for st in pr["steps"]):
+            P["elided"] = True
+        if P["elided"]:
+            P["pr_printed"] = pr
+            P["pr"] = pr = sattrace.drop_constant_steps(pr)
+            if pr["final"] is not None:
+                lines.append(sattrace.proof_driver_line(pr))
+                owner.append((pi, "printed"))
+            lines.append(sattrace.proof_driver_line(pr, final=P["last"]))
+            owner.append((pi, "repaired"))
+    if lines:
+        rc, outs, err = sattrace.run_driver(exe, lines)
+        if rc != 0 or len(outs) != len(lines):
+            ctx.tie_broken("sat-driver", "rc=%s on the constant-steps pass" % rc)
+            return
+        for (pi, which), ans in zip(owner, outs):
+            proofs[pi][which] = ans
 
     # 2. leaves: frame bookkeeping + oracle entailment (cached per script/state)
     def leaf_work(P):
@@ -317,8 +356,10 @@ def run(ctx):
                 for q in bad:
                     res[("cvc5", q[0])] = res2.get(q[0], ("unknown", "unknown"))
         return infos, problems, res
+    t0 = _t.time()
     with concurrent.futures.ThreadPoolExecutor(max_workers=6) as pool:
         leafres = list(pool.map(leaf_work, proofs))
+    ctx.extra["t_oracle_s"] = round(_t.time() - t0, 1)
 
     nleaves = dict(activation=0, guarded=0, base=0, theory=0, undecided=0, elided=0, aux=0)
     admitted_lines, admitted_owner = [], []
@@ -364,8 +405,16 @@ def run(ctx):
         if lr is None:
             continue
         infos, problems, res = lr
-        for sig, what in problems:
-            ctx.violation(sig, what + "  -- the proof refers to a frame that is not active: it does not refute the current assertions", replay)
+        if problems:
+            earlier = [Q for Q in proofs[:pi] if Q["text"] == P["text"] and Q["k"] < P["k"] and Q["raw"] == P["raw"]]
+            for sig, what in problems:
+                if sig in ("leaf-of-popped-frame", "activation-of-inactive-frame") and earlier:
+                    sig = "popped-frame:stale-proof-reprinted"
+                    what = ("the proof printed after check-sat %d is, character for character, the proof printed after check-sat %d, whose frame "
+                            "has been popped since: " % (P["k"] + 1, earlier[-1]["k"] + 1)) + what
+                elif sig in ("leaf-of-popped-frame", "activation-of-inactive-frame"):
+                    sig = "popped-frame:" + sig
+                ctx.violation(sig, what + "  -- the proof refers to a frame that is not active: it does not refute the current assertions", replay)
         if "__error__" in res:
             ctx.count("oracle-output-short")
         admitted = set()
